@@ -103,7 +103,7 @@ impl DetectProp for C09 {
             let early_exit = full.len() == 1 && {
                 let m = &full[0];
                 let sig = MARKS.iter().find(|(_, mk)| case.bytes.starts_with(mk)).map(|(e, _)| e.to_string());
-                let declared = if s.pre { vh::any_specified_encoding(&case.bytes, 4096) } else { None };
+                let declared = if s.pre { independent_declared(&case.bytes, 4096) } else { None };
                 m.cands().iter().any(|e| {
                     let hint = e == "ascii" || e == "utf-8" || Some(e.clone()) == sig || Some(e.clone()) == declared;
                     hint && (f32::from_bits(m.chaos) < 0.1 || Some(e.clone()) == sig)
